@@ -15,7 +15,7 @@ INV = ["RestoreOK", "FilesSafe", "LiveTablesExist", "SeqOK"]
 def run(c):
     q = c.tier == "quick"
     dkvlib.run_scripts(c, True)
-    r = vlib.run_tlc("Dkv", cfg=dict(constants=dkvlib.consts(Vals={1}, MaxOps=3, MaxReads=0, MaxCkpt=1, MaxReopen=1, MaxRetain=1, MaxGc=1),
+    r = vlib.run_tlc("Dkv", cfg=dict(constants=dkvlib.consts(Vals={1}, MaxOps=3, MaxReads=0, MaxCkpt=1, MaxReopen=1, MaxRetain=1, MaxGc=1, MaxFail=1),
                                      invariants=INV, properties=["WalReclaimed"], view="view"), timeout=1500, name="Dkv-gc")
     c.add_tlc(r, "Dkv files exhaustive ops=3 ckpt=1 reopen=1 retain=1 gc=1")
     if not q:
@@ -23,11 +23,11 @@ def run(c):
                                          invariants=INV, properties=["WalReclaimed"], view="view"), timeout=2400, name="Dkv-gc2")
         c.add_tlc(r, "Dkv files exhaustive ops=3 ckpt=2 reopen=1 retain=1 gc=1")
     n = 120 if q else 900
-    base = dict(Vals={1, 2}, MaxReads=1, MaxCkpt=2, MaxReopen=2, MaxRetain=2, MaxGc=3)
+    base = dict(Vals={1, 2}, MaxReads=1, MaxCkpt=2, MaxReopen=2, MaxRetain=2, MaxGc=3, MaxFail=1)
     cfgs = [(dkvlib.consts(MaxOps=9, MaxLen=50, **base), 0), (dkvlib.consts(MaxOps=9, MaxLen=50, MemCap=24, **base), 1),
             (dkvlib.consts(MaxOps=9, MaxLen=50, MemCap=70, L0Trigger=3, **base), 2)]
     if not q:
-        big = dict(Vals={1, 2}, MaxReads=1, MaxCkpt=3, MaxReopen=3, MaxRetain=3, MaxGc=5)
+        big = dict(Vals={1, 2}, MaxReads=1, MaxCkpt=3, MaxReopen=3, MaxRetain=3, MaxGc=5, MaxFail=2)
         cfgs += [(dkvlib.consts(MaxOps=12, MaxLen=80, **big), 0), (dkvlib.consts(MaxOps=12, MaxLen=80, MemCap=24, L0Trigger=1, **big), 1)]
     for i, (cs, conc) in enumerate(cfgs):
         dkvlib.replay(c, cs, n, 90, c.seed * 100 + 70 + i, "Dkv files replay MemCap=%d L0=%d" % (cs["MemCap"], cs["L0Trigger"]),
